@@ -17,6 +17,8 @@ ROW = ('%sR <dtml-var sequence-number> <dtml-var previous-sequence> <dtml-var ne
 
 SRC_VARS = ('<dtml-in seq start=st end=en size=sz orphan=orp overlap=ov>' + ROW +
             '<dtml-else>EMPTY</dtml-in>')
+SRC_PLAIN = '<dtml-in seq>' + ROW + '<dtml-else>EMPTY</dtml-in>'
+PB = '<dtml-in previous-batches mapping></dtml-in>' 
 
 _templates = {}
 
@@ -29,6 +31,8 @@ def template(kind='vars', extra='', lit=None):
     if t is None:
         if kind == 'vars':
             src = SRC_VARS % extra
+        elif kind == 'plain':
+            src = SRC_PLAIN % extra
         elif kind == 'lit':
             src = ('<dtml-in seq start=%d end=%d size=%d orphan=%d overlap=%d>' % lit +
                    ROW % extra + '<dtml-else>EMPTY</dtml-in>')
@@ -78,6 +82,7 @@ class LazySeq:
             i += self.L
         if not 0 <= i < self.L:
             self.finished = True
+            self.hi = self.L          # to find the end, everything had to be produced
             raise IndexError(i)
         self.hi = max(self.hi, i + 1)
         return i + 1
@@ -122,6 +127,9 @@ def observe(par, kind='vars', seqkind='list', as_str=False, extra=''):
     conv = str if as_str else int
     if kind == 'lit':
         t = template('lit', extra, (start, end, size, orphan, overlap))
+        kw = {}
+    elif kind == 'plain':
+        t = template('plain', extra)
         kw = {}
     else:
         t = template(kind, extra)
